@@ -3,10 +3,11 @@
 # confirms a proposed breaking change in a scratch worktree of /repo and installs it under /verif/seeded/<seed id>/
 set -u
 out="$1"; k="$2"; sid="$3"; prop="$4"
-W=/tmp/mut/verify
+W=${SEEDVERIFY_W:-/tmp/mut/verify}
+mkdir -p /tmp/mut
 [ -d "$W" ] || git -C /repo worktree add -q "$W" HEAD
 cd "$W" && git checkout -q --detach "$(git -C /repo rev-parse HEAD)" && git checkout -q -- . && git clean -fdq tera/tests tera-contrib/tests tera/src 2>/dev/null
-export CARGO_TARGET_DIR=/tmp/mut/verify-target CARGO_NET_OFFLINE=true
+export CARGO_TARGET_DIR=${W}-target CARGO_NET_OFFLINE=true
 pkg=tera; feat=""
 if head -1 "$out/demo_$k.rs" | grep -q 'place: tera-contrib/tests'; then pkg=tera-contrib; feat="--all-features"; fi
 mkdir -p "$pkg/tests"; demo="$pkg/tests/demo_${sid}.rs"
